@@ -161,7 +161,7 @@ func newGuardChecker(c *Ctx, lfs *LockFlows) *guardChecker {
 // callersHold: every call site of fn in the module holds a lock of the class
 // (recursively; recursion is assumed fine co-inductively). witness = an offending caller.
 func (g *guardChecker) callersHold(fn *ssa.Function, class string, readOK bool, depth int) (bool, string) {
-	key := g.c.FuncKey(fn) + "|" + class
+	key := g.c.FuncKey(fn) + "|" + class + fmt.Sprintf("|%v", readOK)
 	switch g.memo[key] {
 	case 1:
 		return true, ""
